@@ -120,12 +120,13 @@ def parseUsize (s : List Char) : Option Nat :=
     if n < 2 ^ 64 then some n else none
   else none
 
-/-- `scientific_to_plain`; `none` = the function panics (an `unwrap()` on a malformed exponent,
-or the `usize` subtraction `exponent_digits - after_decimal.len()` underflowing). -/
-def sciToPlain (s : List Char) : Option (List Char) :=
+/-- `scientific_to_plain` after the sign has been put aside (number.rs:467-500); `none` = the
+function panics (an `unwrap()` on a malformed exponent, or the `usize` subtraction
+`exponent_digits - after_decimal.len()` underflowing). -/
+def sciToPlainU (s : List Char) : Option (List Char) :=
   match breakOn2 'E' '+' s with
   | some (beforeExponent, r) =>
-    -- number.rs:455-468
+    -- the `E+` branch
     let afterExponent := upTo2 'E' '+' r
     match parseUsize afterExponent with
     | none => none
@@ -135,12 +136,14 @@ def sciToPlain (s : List Char) : Option (List Char) :=
         let afterDecimal := upTo1 '.' r2
         if exponentDigits < afterDecimal.length then none
         else some (beforeDecimal ++ afterDecimal ++ zeros (exponentDigits - afterDecimal.length))
-      | none => some (beforeExponent ++ zeros exponentDigits)
+      | none =>
+        -- a zero with a positive exponent is just zero (fix de58a23)
+        if beforeExponent.all (· == '0') then some ['0']
+        else some (beforeExponent ++ zeros exponentDigits)
   | none =>
     match breakOn2 'E' '-' s with
     | some (beforeExponent, r) =>
-      -- number.rs:469-483: the sign of the number is inside `before_decimal` and is
-      -- printed *after* the leading "0.000"
+      -- the `E-` branch
       let afterExponent := upTo2 'E' '-' r
       match parseUsize afterExponent with
       | none => none
@@ -151,6 +154,15 @@ def sciToPlain (s : List Char) : Option (List Char) :=
           some (['0', '.'] ++ zeros (exponentDigits - 1) ++ beforeDecimal ++ afterDecimal)
         | none => some (['0', '.'] ++ zeros (exponentDigits - 1) ++ beforeExponent)
     | none => some s
+
+/-- `scientific_to_plain` (number.rs:462): a leading `-` is kept aside and put in front of the
+rewritten digits (fix 4df4c0b; the function calls itself on the rest) -/
+def sciToPlain : List Char → Option (List Char)
+  | '-' :: r =>
+    match sciToPlain r with
+    | some t => some ('-' :: t)
+    | none => none
+  | s => sciToPlainU s
 
 /-- `impl Display for FeelNumber` / `jsonify` (number.rs:357-369) -/
 def plain (d : D128) : Option (List Char) := sciToPlain (toSci d)
@@ -234,27 +246,18 @@ def ofLiteral (before after : List Char) : Option D128 := fromStr (before ++ ['.
 
 /-! ## specification side -/
 
+/-- number of zeros appended to the digits of an integer: the exponent, but none for a zero -/
+def zexp (d : D128) : Nat := if d.coeff = 0 then 0 else d.exp.toNat
+
 /-- the expected plain rendering of a finite number -/
 def plainSpec (d : D128) : List Char :=
   let ds := natDigits d.coeff
   let sign : List Char := if d.neg then ['-'] else []
-  if d.exp ≥ 0 then sign ++ ds ++ zeros d.exp.toNat
+  if d.exp ≥ 0 then sign ++ ds ++ zeros (zexp d)
   else
     let f := (-d.exp).toNat
     if f < ds.length then sign ++ ds.take (ds.length - f) ++ ['.'] ++ ds.drop (ds.length - f)
     else sign ++ ['0', '.'] ++ zeros (f - ds.length) ++ ds
-
-/-- Region where `Display` is wrong on the current code (finding F1): the number is negative
-and `decQuadToString` prints it in `E-` form (adjusted exponent below −6). -/
-def f1Region (d : D128) : Bool :=
-  d.neg && decide (((natDigits d.coeff).length : Int) + d.exp < -5)
-
-/-- what the current code prints in the F1 region: the sign after the leading zeros -/
-def f1Text (d : D128) : List Char :=
-  ['0', '.'] ++ zeros ((-d.exp).toNat - (natDigits d.coeff).length) ++ ['-'] ++ natDigits d.coeff
-
-/-- a zero with a positive exponent (printed as several zeros: not a JSON number) -/
-def zeroPosExp (d : D128) : Bool := d.coeff == 0 && decide (d.exp > 0)
 
 /-- an optional leading `-` -/
 def stripMinus : List Char → Bool × List Char
